@@ -223,6 +223,34 @@ theorem C18_advert_after_response (info : Info) (p : Pairings) (sessions : List 
     ∃ conn, Obs.write conn rid ∈ earlier :=
   (good_run _ steps (good_init info p sessions)).ord.split later earlier rid txt h
 
+/-- ... and that write is the response of *that* request on *its* connection: take any trace, any
+    request step in it that is delivered on connection `conn` (the identifier it is given is the
+    `nextRid` of that moment), and any continuation. Every response write tagged with this request
+    is on `conn`, and a refreshed record caused by it is preceded by the write on `conn`. -/
+theorem C18_advert_after_own_response (info : Info) (p : Pairings) (sessions : List (Nat × Client))
+    (pre post : List Step) (conn : Nat) (r : Req)
+    (hc : isClosed (run (init info p sessions) pre) conn = false)
+    (later earlier : List Obs) (txt : List (String × String))
+    (h : (run (init info p sessions) (pre ++ .request conn r :: post)).log
+      = later ++ Obs.publish (some (run (init info p sessions) pre).nextRid) txt :: earlier) :
+    Obs.write conn (run (init info p sessions) pre).nextRid ∈ earlier ∧
+    ∀ c, Obs.write c (run (init info p sessions) pre).nextRid
+        ∈ (run (init info p sessions) (pre ++ .request conn r :: post)).log → c = conn := by
+  have e : run (init info p sessions) (pre ++ .request conn r :: post)
+      = run (step (run (init info p sessions) pre) (.request conn r)) post := by
+    rw [AdvertSys.run_append]; rfl
+  have hown : Own conn (run (init info p sessions) pre).nextRid
+      (run (init info p sessions) (pre ++ .request conn r :: post)) := by
+    rw [e]
+    exact own_run _ _ _ post (own_request _ conn r (fresh_run _ pre (fresh_init info p sessions)) hc)
+  obtain ⟨c, hcm⟩ := C18_advert_after_response info p sessions _ later earlier _ txt h
+  have hin : Obs.write c (run (init info p sessions) pre).nextRid
+      ∈ (run (init info p sessions) (pre ++ .request conn r :: post)).log := by
+    rw [h]; exact List.mem_append_right _ (List.mem_cons_of_mem _ hcm)
+  have := hown.log c hin
+  subst this
+  exact ⟨hcm, hown.log⟩
+
 /-- The request tags in the log are meaningful: a request step is given the identifier `nextRid`,
     and in every trace every identifier that occurs in the log (response write, cipher install,
     published record) is below `nextRid`, i.e. belongs to a request dispatched earlier in the
@@ -572,6 +600,12 @@ example : (run (init ⟨['x'], 1, [], 65535, false, ""⟩ [] [])
         | .write c r => (0, c, r, "") | .cipher c r => (1, c, r, "")
         | .publish r t => (2, 0, r.getD 99, (lookup "c#" t).getD "?" ++ "/" ++ (lookup "sf" t).getD "?"))
     = [(2, 0, 0, "1/0"), (2, 0, 99, "1/0"), (0, 0, 0, "")] := by decide
+/-- the hypotheses of `C18_advert_after_own_response` on a concrete trace (`pre = []`, request 0 on
+    connection 3, then the executor and the loop run) -/
+example : ∃ txt, (run (init ⟨['x'], 1, [], 1, false, ""⟩ [] [])
+    ([] ++ .request 3 (.pairSetupM5 7 true) :: [.execRun 0, .loopRun 0])).log
+      = [] ++ Obs.publish (some (run (init ⟨['x'], 1, [], 1, false, ""⟩ [] []) []).nextRid) txt :: [Obs.write 3 0] :=
+  ⟨_, rfl⟩
 example : MacTailOk "AA:BB:CC:7A:8F:A9".toList := by decide
 example : PinShape "031-45-154".toList := by decide
 example : okChar 'é' = false ∧ okChar (Char.ofNat 0) = false := by decide
